@@ -26,3 +26,5 @@ def run(ctx):
     ctx.replay(behs, pre, observe, ordered=True, label="edges")
     w = ctx.gen_walks("MCEmcy", "C15_walk.cfg", num=100 if q else 4000, depth=45)
     ctx.replay(w, pre, observe, ordered=True, label="walks")
+    # EMCY identifier 80h + node id, 1014h with the node-id flag: the same model with the largest node id
+    node_check.node_id_variant(ctx, "MCEmcy", "C15", pre, observe, True, (100, 4000), 45, 2500)
